@@ -816,6 +816,14 @@ func (state *RuntimeState) getUsernameIfKeymasterSigned(VerifiedChains [][]*x509
 				return "", time.Time{}, err
 			}
 			if certSignerPKFingerprint == fp {
+				// The role requesting CA shares its key with the user CA:
+				// the IP restricted certificates it issues are not user
+				// certificates.
+				if len(state.selfRoleCaCertDer) > 0 &&
+					bytes.Equal(chain[1].Raw, state.selfRoleCaCertDer) {
+					return "", time.Time{}, errors.New(
+						"role requesting certificate presented as user certificate")
+				}
 				return username, chain[0].NotBefore, nil
 			}
 		}
